@@ -13,7 +13,7 @@ var prefixWords = []string{"archived:", "b:", "branch:", "c:", "case:", "content
 	"repo:", "lang:", "sym:", "t:", "type:", "meta.", "meta.k:", "meta.license:", "metax:", "cas:", "or:", ":"}
 
 var values = []string{"yes", "no", "auto", "filematch", "filename", "file", "repo", "", "foo", "Foo", "main", "go", "python", "HEAD", "dev",
-	"a.*b", "[a-z]+", "[A-Z]+", "[xY]z", "(P|Q)r", "(", ")", "[", "a|b", "(?i)x", "\\", "\"", "x:y", ":", "Apache-.*", "*", "+", "\\d", "\\S+", "(a)(b)", "a b", "é", "\xff", "\xc3"}
+	"a{3}", "x{2,}", "fo{1,2}o", "a.*b", "[a-z]+", "[A-Z]+", "[xY]z", "(P|Q)r", "(", ")", "[", "a|b", "(?i)x", "\\", "\"", "x:y", ":", "Apache-.*", "*", "+", "\\d", "\\S+", "(a)(b)", "a b", "é", "\xff", "\xc3"}
 
 var words = []string{"OR", "Or", "oR", "AND", "Not", "[A-Z]oo", "(X|Y)z", "ba[RZ]", "foo", "bar", "Foo", "or", "and", "main", "x", "a.b", "fo*", "(foo)", "(foo|bar)", "\\(", "\\\\", "[a-c]", "^a$", "é", "日本"}
 
@@ -32,7 +32,7 @@ func fixedStrings() []string {
 }
 
 var gvocab = &q2lib.Vocab{
-	Words:     []string{"foo", "Foo", "bar", "a.*b", "[a-z]+", "(foo|bar)", "x\\.y", "\\w+", "main", "(?i)x", "é"},
+	Words:     []string{"foo", "Foo", "bar", "a{3}", "x{2,}", "fo{1,2}o", "a.*b", "[a-z]+", "(foo|bar)", "x\\.y", "\\w+", "main", "(?i)x", "é"},
 	Spaced:    []string{"foo bar", "a \"b\"", "x  y", "(a) (b)"},
 	Files:     []string{"\\.go$", "main", "README"},
 	Repos:     []string{"github\\.com", "one$", "b/two"},
@@ -190,4 +190,26 @@ func genBody(r *gen.Rand, q []byte) []byte {
 		}
 		return raw
 	}
+}
+
+// blankVariants: s with one blank replaced by two blanks, a tab, a newline.
+func blankVariants(r *gen.Rand, s []byte) [][]byte {
+	var pos []int
+	for i, c := range s {
+		if c == ' ' {
+			pos = append(pos, i)
+		}
+	}
+	if len(pos) == 0 {
+		return nil
+	}
+	i := pos[r.Intn(len(pos))]
+	var out [][]byte
+	for _, rep := range []string{"  ", "\t", "\n"} {
+		v := append([]byte{}, s[:i]...)
+		v = append(v, rep...)
+		v = append(v, s[i+1:]...)
+		out = append(out, v)
+	}
+	return out
 }
